@@ -6,7 +6,7 @@ import (
 	"os"
 
 	"verif/harness/internal/core"
-	_ "verif/harness/internal/mon"
+	"verif/harness/internal/mon"
 )
 
 func main() {
@@ -26,6 +26,8 @@ func main() {
 		os.Exit(core.WorkerMain(os.Args[2:]))
 	case "replaycase":
 		os.Exit(core.ReplayCaseMain(os.Args[2:]))
+	case "debugpair":
+		mon.DebugPair(os.Args[2])
 	case "list":
 		for _, id := range core.IDs() {
 			fmt.Println(id)
